@@ -184,7 +184,8 @@ CHECKS = {
         "real get_faultlog() on the virtual loop against a scripted controller, read-through with the k-th request failing, read-through during which "
         "a new entry arrives; invariants in every state (views never raise, newest-first, no entry twice, only reported entries), read-through equality, "
         "announcement pushes known entries down; a second BFS from non-initial states (the controller already holds 4-5 / 5-6 entries unknown to the "
-        "library) to depth 5 (7) with log depth <= 6 (8); plus a 70-entry history and full 64-/66-entry logs read from scratch for the 64-slot limit.",
+        "library) to depth 5 (7) with log depth <= 6 (8); the controller's log silently cut short (prior belief arbitrary), views polled during a read-through, a bystander and a peer "
+        "fault log in the same process; plus a 70-entry history and full 64-/66-entry logs read from scratch for the 64-slot limit.",
         design_ref="4/C19",
         note="Dedup on (controller log, FaultLog._map, FaultLog._log keys, _is_getting); timestamps unique and increasing; the dispatcher hands each RP to handle_msg before get_faultlog processes it.",
     ),
@@ -259,9 +260,11 @@ CHECKS = {
     "C09": dict(
         engine="E1-sched",
         category="model_checking",
-        technique=E1,
+        technique=E1 + "; plus explicit-state breadth-first search with state hashing over the same real world",
         text="Every episode with <= 2 (thorough 3) deviations incl. coincident timers, failed writes, disconnect in every state, pause, duplicates and late "
-        "packets; at quiescence the real FSM must be idle/inactive with nothing in flight, no tripped internal assert, no loop exception, and a probe send must succeed.",
+        "packets; at quiescence the real FSM must be idle/inactive with nothing in flight, no tripped internal assert, no loop exception, and a probe send must succeed. "
+        "Plus explicit-state BFS with state hashing (any number of losses / duplicates / late packets / failed writes / disconnects / pauses / timer coincidences, "
+        "a transport that holds frames before writing them, traffic of a block-listed device), all graphs closed.",
         design_ref="4/C09",
         note="Reconnect of the same protocol object is not a library path and is not explored; single loop thread (CheckedLock turns a blocking re-acquire into a reported deadlock).",
     ),
